@@ -224,5 +224,18 @@ PROPS["C05"] = dict(
     assumptions=["vspec.h is a faithful transcription of the specification"],
 )
 
+PROPS["C06"] = dict(
+    engine="rc", engine_name="rc-tape", sources=["props/c06.cpp"], level="exploration", design_ref="3.7",
+    quick=dict(cases=300), thorough=dict(cases=4000),
+    technique="property-based testing (rapidcheck tapes): generated signals with a sharp autocorrelation and per-channel distinct content through encode+decode; oracle: argmax of the input/output cross-correlation is lag 0, correlation matrix diagonal-dominant, bounded peak, calibrated SNR floor and metamorphic SNR monotonicity in quality",
+    level_text="Generated configurations (1..8 channels, eight rates, VBR q -0.1..1.0 and managed) and three signal classes with per-channel distinct content, at least 7 long blocks: low-passed noise and click trains (alignment: the lag in "
+               "[-min(bs1,2048), +..] that maximises the cross-correlation must be exactly 0; no permutation: every input channel correlates best with the same-numbered output channel), in-band multitones below 0.8 x the template's lowpass "
+               "(SNR at least a floor that rises with quality; SNR(q+0.4) >= SNR(q) - 3 dB on the same signal). All samples finite; peak(out) <= 3.5 peak(in) + 0.05.",
+    level_note="The peak factor and the SNR floor are calibrated empirical bounds (DESIGN 3.7): a marginal quality regression (a few dB) is below the resolution of this check; delays, channel swaps, sign errors and broadband noise at -20 dB are not.",
+    rule="case = configuration + signal class and parameters + N; non-trivial = input RMS above -40 dBFS and at least 6 long blocks; distinct by hash of the case description",
+    require_labels=["alignment checked (lag 0 is the correlation maximum)", "channel order checked", "SNR checked", "quality monotonicity checked", "class 0", "class 1", "class 2"],
+    assumptions=["calibration table in src/props/c06.cpp"],
+)
+
 NOT_APPLICABLE = {}
 HOOK_COMMITS = []
